@@ -82,11 +82,11 @@ func (r *Rep) Floor(rule string, found, floor int) {
 	}
 }
 
-func (r *Rep) Note(f string, a ...any)   { r.Notes = append(r.Notes, fmt.Sprintf(f, a...)) }
-func (r *Rep) Sample(v any)              { r.Samples = append(r.Samples, v) }
-func (r *Rep) Count(what string, n int)  { r.Analysed[what] += n }
-func (r *Rep) Trust(s ...string)         { r.Trusted = append(r.Trusted, s...) }
-func (r *Rep) Assumption(s ...string)    { r.Assume = append(r.Assume, s...) }
+func (r *Rep) Note(f string, a ...any)  { r.Notes = append(r.Notes, fmt.Sprintf(f, a...)) }
+func (r *Rep) Sample(v any)             { r.Samples = append(r.Samples, v) }
+func (r *Rep) Count(what string, n int) { r.Analysed[what] += n }
+func (r *Rep) Trust(s ...string)        { r.Trusted = append(r.Trusted, s...) }
+func (r *Rep) Assumption(s ...string)   { r.Assume = append(r.Assume, s...) }
 
 // Known findings ---------------------------------------------------------------------------
 
